@@ -463,7 +463,13 @@ def replay_point(case, env, meta, tol=1e-6):
     jd = float(np.real(J[key]["J_fd"][meta["i"], meta["j"]]))
     if not (np.isfinite(jf) and np.isfinite(jd)):
         return None, "non-finite replay values"
-    bad = abs(jf - jd) > tol * max(1.0, abs(jf), abs(jd)) + 1e-9
+    nc = J[key].get("noise_col")
+    if nc is not None:
+        # scale-aware: relative disagreement beyond the round-off noise of the difference quotient (badly scaled inputs
+        # such as the Reynolds number have tiny derivatives in absolute terms)
+        bad = abs(jf - jd) > 1e-5 * max(abs(jf), abs(jd)) + float(nc[meta["j"]]) + 1e-300
+    else:
+        bad = abs(jf - jd) > tol * max(1.0, abs(jf), abs(jd)) + 1e-9
     return bad, "analytic d%s[%d]/d%s[%d] = %.9g, central difference = %.9g" % (
         meta["of"], meta["i"], meta["wrt"], meta["j"], jf, jd)
 
